@@ -379,6 +379,68 @@ func c18Run(scratch string, c c18Case) (string, string) {
 	return "", ""
 }
 
+// c18Chain: the bounce pipeline routes reports into a second real queue whose
+// downstream fails; no report about a report may ever be generated.
+func c18Chain(scratch string, c c18Case) (string, string) {
+	d1, _ := os.MkdirTemp(scratch, "c18a-")
+	d2, _ := os.MkdirTemp(scratch, "c18b-")
+	defer os.RemoveAll(d1)
+	defer os.RemoveAll(d2)
+	fail := qhP
+	if c.BounceFault == "queue-exhaust" {
+		fail = qhT
+	}
+	t1 := &qhTarget{name: "target", decide: func(d *qhDeliv, stage, rcpt string) int {
+		if stage == "rcpt" {
+			return qhP
+		}
+		return qhOK
+	}}
+	t2 := &qhTarget{name: "target2", decide: func(d *qhDeliv, stage, rcpt string) int {
+		if stage == "body" {
+			return fail
+		}
+		return qhOK
+	}}
+	b2 := &qhTarget{name: "bounce2"}
+	out := qhRun(func() {
+		q2, err := qhNewQueue(qhQueueOpts{dir: d2, target: t2, bounce: b2, maxTries: 2})
+		if err != nil {
+			panic(err)
+		}
+		q1, err := qhNewQueue(qhQueueOpts{dir: d1, target: t1, bounce: q2, maxTries: 2})
+		if err != nil {
+			panic(err)
+		}
+		var addrs []string
+		for _, rc := range c.Rcpts {
+			addrs = append(addrs, rc.Addr)
+		}
+		m := qhMsg{ID: "m1", From: c.From, Rcpts: addrs, Header: qhHeader(c.Header + "\r\n"), Body: []byte("x\r\n"), Meta: &module.MsgMetadata{SMTPOpts: smtp.MailOptions{UTF8: c.UTF8}}}
+		if _, err := qhSubmit(q1, m); err != nil {
+			panic(err)
+		}
+	})
+	if len(out.Panics) > 0 {
+		return "C18:chain:panic:" + vx.PanicSite(out.Panics[0]), out.Panics[0]
+	}
+	if out.Deadlock || out.StepCap {
+		return "C18:chain:hang-or-loop", fmt.Sprintf("deadlock=%v stepcap=%v: reports: %d deliveries in the report queue, %d reports about reports", out.Deadlock, out.StepCap, len(t2.dels), len(b2.dels))
+	}
+	if c.From != "" && len(t2.dels) == 0 {
+		return "C18:chain:no-report", "the failed message produced no report"
+	}
+	if len(b2.dels) != 0 {
+		return "C18:report-about-report", fmt.Sprintf("the report (null return path) failed in the second queue and %d report(s) about it were generated, addressed to %q", len(b2.dels), b2.dels[0].Offered)
+	}
+	for _, d := range t2.dels {
+		if d.From != "" {
+			return "C18:return-path-not-null", d.From
+		}
+	}
+	return "", ""
+}
+
 func c01ASCII18(s string) bool {
 	for i := 0; i < len(s); i++ {
 		if s[i] >= 0x80 {
@@ -416,6 +478,9 @@ func TestVerifC18(t *testing.T) {
 			return
 		}
 		fp, detail := c18Run(scratch, c)
+		if strings.HasPrefix(c.BounceFault, "queue") {
+			fp, detail = c18Chain(scratch, c)
+		}
 		r.Eval()
 		if fp != "" {
 			r.Violation(fp, detail, c)
@@ -440,7 +505,12 @@ func TestVerifC18(t *testing.T) {
 		if !r.Mine(idx) {
 			return
 		}
-		fp, detail := c18Run(scratch, c)
+		var fp, detail string
+		if strings.HasPrefix(c.BounceFault, "queue") {
+			fp, detail = c18Chain(scratch, c)
+		} else {
+			fp, detail = c18Run(scratch, c)
+		}
 		r.Eval()
 		failed := false
 		for _, rc := range c.Rcpts {
@@ -473,6 +543,16 @@ func TestVerifC18(t *testing.T) {
 		shapes = append(shapes, []c18Rcpt{{Addr: "a@example.org"}, {Addr: "b@example.org", Orig: "bb@example.org"}, {Addr: "c@пример.рф"}})
 	}
 	for _, sh := range shapes {
+		for _, bf := range []string{"queue-perm", "queue-exhaust"} {
+			for _, utf8 := range []bool{false, true} {
+				rc := append([]c18Rcpt{}, sh...)
+				for i := range rc {
+					rc[i].Result = "perm-plain"
+				}
+				do(c18Case{Rcpts: rc, From: "sender@example.com", UTF8: utf8, Header: headers[0], BounceFault: bf})
+				do(c18Case{Rcpts: rc, From: "", UTF8: utf8, Header: headers[0], BounceFault: bf})
+			}
+		}
 		// all result assignments
 		n := len(sh)
 		total := 1
